@@ -144,7 +144,7 @@ func C11(p *engine.Prog, r *engine.Report) {
 				if isRecoverBlock(ret.Block()) || retErrKind(ret) == "nil" {
 					continue
 				}
-				if !engine.OnlyThroughPass(rt, ret.Block(), gImp) {
+				if !engine.OnlyThroughPassRet(rt, ret, gImp) {
 					continue // before anything was written
 				}
 				n++
@@ -185,10 +185,10 @@ func C11(p *engine.Prog, r *engine.Report) {
 		})
 		okR, okV := len(gRoot) > 0, len(gValid) > 0
 		for _, ret := range successReturns(rt) {
-			if !engine.OnlyThroughPass(rt, ret.Block(), gRoot) {
+			if !engine.OnlyThroughPassRet(rt, ret, gRoot) {
 				okR = false
 			}
-			if !engine.OnlyThroughPass(rt, ret.Block(), gValid) {
+			if !engine.OnlyThroughPassRet(rt, ret, gValid) {
 				okV = false
 			}
 		}
@@ -245,7 +245,7 @@ func C11(p *engine.Prog, r *engine.Report) {
 		})
 		ok := add != nil && len(gRoot) > 0
 		for _, ret := range successReturns(vi) {
-			if !engine.OnlyThroughPass(vi, ret.Block(), gRoot) {
+			if !engine.OnlyThroughPassRet(vi, ret, gRoot) {
 				ok = false
 			}
 		}
